@@ -143,11 +143,11 @@ CHECKS.update({
         note="Bounds: K=3 nodes quick, K=4 thorough (10 279 paths), 2 labels. Static trees are outside.",
     ),
     "C08": dict(
-        engine="E-SQL",
+        engine="E-SQL + E-XH",
         ref="DESIGN.md section 5 / C08 and section 9",
-        technique=_ESQL,
+        technique=_ESQL + "; CrossHair symbolic execution of Workflow.define_step/_raise_if_glob_match against a stub graph (recycle outcome symbolic)",
         text="Claims on one path. From any state within the bound _check_declaration accepts a declaration as new exactly when no attached file node has the path, reports 'already declared' exactly when the attached node has the same role and creator, and rejects otherwise; for every pair of declarations of one path (static / output / volatile, same or different creators) through the real declare_static_files / amend_step, a rejection happens in the order D1;D2 iff it happens in D2;D1, and at no point two attached file nodes exist for the path; a path matched by a registered glob pattern cannot be declared as an output or volatile output (amend_step). The string side (static trees, all spellings) is C18, glob patterns C17, message text C02.",
-        note="Bounds: K=4 nodes. Static trees, glob patterns, define_step as a whole and the root's own declarations are outside.",
+        note="Bounds: K=4 nodes. O8.4 (CrossHair): define_step against a stub graph with pools of 4 patterns / 6 paths and a symbolic try_recycle answer. Static trees (register_static_tree as a whole), the node INSERTs of define_step and the root's own declarations are outside.",
     ),
 })
 NOT_APPLICABLE = {
